@@ -285,8 +285,20 @@ class WKCResource(Resource):
             elif k in ("href",):  # x.href is single valued
                 filters.append(lambda link: matchexp(getattr(link, k)))
             else:
+
+
+                def values(link, k=k):
+                    v = getattr(link, k, ())
+                    # Single-valued attributes (title, rel, anchor, ...) are
+                    # reported as a plain string, valueless ones as None
+                    if isinstance(v, str):
+                        return [v]
+                    return [x for x in v if x is not None]
+
                 filters.append(
-                    lambda link: any(matchexp(part) for part in getattr(link, k, ()))
+                    lambda link, values=values: any(
+                        matchexp(part) for part in values(link)
+                    )
                 )
 
         while filters:
